@@ -1455,6 +1455,19 @@ theorem bedBlock_keeps_depth {t : Tree} {f : Nat} (cfg : Cfg) (c : Col) (k : Nat
     (semF_moveToXY cfg _ _ _)) (semF_shutter cfg true)) (semF_farcall (f := f) cfg)) (semF_shutter cfg false))
     (semF_uMove cfg (c.u.map (·.1)) false)) (semF_remove (bedName k) 2)
 
+private def dCol : Col := { index := 0, nboxz := 2, nRep := 5, baseFolder := "lab", inits := [(1, 2)], hBox := 3/40, zOff := -1/50,
+                            deltaz := 3/2000, speedClosed := 5, u := none, upper := true, beds := [(1, 2)] }
+private def dLeaf : List Stmt := emit [.g1 { x := some 1, y := some 2, f := some 4 }, .g1 { x := some 1, y := some 3 }]
+private def dTree : Tree := [("trenchCol001/trench001_WALL.pgm", dLeaf), ("trenchCol001/trench001_FLOOR.pgm", dLeaf),
+                             ("trenchCol001/trench_BED_001.pgm", dLeaf)]
+
+/-- non-vacuity of `trenchBlock_depths` / `bedBlock_keeps_depth`: a U-trench column whose wall, floor and bed files are in the tree -/
+example : InTree dTree (inCol dCol (dCol.wall 0)) (dCol.wall 0) ∧ InTree dTree (inCol dCol (dCol.floor 0)) (dCol.floor 0) ∧
+    InTree dTree (inCol dCol (bedName 0)) (bedName 0) :=
+  ⟨⟨by decide +kernel, "trenchCol001/trench001_WALL.pgm", dLeaf, by decide +kernel, rfl, by decide +kernel, by decide +kernel⟩,
+   ⟨by decide +kernel, "trenchCol001/trench001_FLOOR.pgm", dLeaf, by decide +kernel, rfl, by decide +kernel, by decide +kernel⟩,
+   ⟨by decide +kernel, "trenchCol001/trench_BED_001.pgm", dLeaf, by decide +kernel, rfl, by decide +kernel, by decide +kernel⟩⟩
+
 /-! ### the leaf files (`export_array2d`) -/
 
 theorem leafLine_xy (cfg : Cfg) (xy : Rat × Rat) (f : Option Rat) (g9 : Bool) (i : Instr) (h : leafLine cfg xy f g9 = .ok i) :
